@@ -2,7 +2,7 @@
 SPECIFICATION Spec
 CONSTANTS
   Devs <- KnownDevs
-  Space = "q2s"
+  Space = "sec8"
   Modes = {"E"}
   EmitCases = TRUE
   PeekBudget = 0
